@@ -12,8 +12,8 @@ typestate) keeps one vocabulary:
   statement); any other placement is left alone (and stays outside the
   vocabulary of the engines that meet it);
 * a `match` statement whose patterns are literals, dotted constants,
-  `None/True/False`, alternatives of those, a final wildcard or a bare
-  capture is the `if/elif/else` chain Python defines it to be (`==` for
+  `None/True/False`, alternatives of those (also `... as name`), a final
+  wildcard or a bare capture is the `if/elif/else` chain Python defines it to be (`==` for
   values, `is` for singletons; the subject is evaluated once).
 
 Nothing here depends on the repository; a construct that does not fit is
@@ -146,6 +146,12 @@ def _pattern_test(pat, subj):
         return ast.BoolOp(op=ast.Or(), values=parts)
     if isinstance(pat, ast.MatchAs) and pat.pattern is None:
         return ("wild",) if pat.name is None else ("capture", pat.name)
+    if isinstance(pat, ast.MatchAs) and pat.name is not None:
+        # `case P as name`: the test of P; the body starts with name = subject
+        inner = _pattern_test(pat.pattern, subj)
+        if inner is None or isinstance(inner, tuple):
+            return None
+        return ("as", inner, pat.name)
     return None
 
 
@@ -234,7 +240,16 @@ class Desugar(ast.NodeTransformer):
             if t is None:
                 return node
             body = list(case.body)
-            if isinstance(t, tuple):
+            if isinstance(t, tuple) and t[0] == "as":
+                if case.guard is not None and t[2] in _names(case.guard):
+                    return node
+                b = ast.Assign(targets=[ast.Name(id=t[2], ctx=ast.Store())],
+                               value=subj())
+                ast.copy_location(b, case.pattern)
+                body = [b] + body
+                test = t[1] if case.guard is None else ast.BoolOp(
+                    op=ast.And(), values=[t[1], case.guard])
+            elif isinstance(t, tuple):
                 if t[0] == "capture":
                     b = ast.Assign(
                         targets=[ast.Name(id=t[1], ctx=ast.Store())],
